@@ -159,6 +159,14 @@ def run(tier, seed):
                                 stage='table versions')
         n_pairs += 1
     rep.extra['table_version_twins'] = n_pairs
+    # one element with associated fields of two widths, in two messages decoded one after the other by the shared decoder
+    for tag, cases in gmsg.assoc_width_twin_runs():
+        for case in cases:
+            out = check_case(case)
+            rep.add_case(case.key(), True, ['same_element_with_two_associated_field_widths'], None)
+            for clause, detail in out.failures:
+                rep.add_failure('associated field widths: ' + clause, dict(detail, decoded_in_this_order=tag), case.to_json(),
+                                stage='associated field widths')
     # operator-bearing Table D sequences as templates of their own (the random grammar keeps them out)
     so = gen_opts(tier)
     so.max_fields = 600
